@@ -19,6 +19,8 @@ type Op struct {
 	Anim *AnimSpec `json:"anim,omitempty"` // animenc: a history of AddFrame calls + Close
 	// hostile: every decoding entry point on corrupted / truncated stored bytes
 	Hostile *C05Params `json:"hostile,omitempty"`
+	// animdec: parse + DecodeFramesParallel of an animation, some frames damaged
+	AnimDec *AnimOp `json:"animdec,omitempty"`
 }
 
 func (o Op) Key() string {
@@ -29,6 +31,9 @@ func (o Op) Key() string {
 func (o Op) String() string {
 	if o.Kind == "animenc" && o.Anim != nil {
 		return "animenc " + o.Anim.String()
+	}
+	if o.Kind == "animdec" && o.AnimDec != nil {
+		return fmt.Sprintf("animdec %s corrupt=%v", o.AnimDec.Spec.String(), o.AnimDec.Corrupt)
 	}
 	if o.Kind == "hostile" && o.Hostile != nil {
 		return fmt.Sprintf("hostile base=%s faults=%+v", o.Hostile.Base, o.Hostile.Faults)
@@ -124,6 +129,22 @@ func ExecOp(op Op, input []byte) Result {
 		return Result{Digest: DigestBytes(res.Data), Len: len(res.Data), Bytes: res.Data}
 	case "hostile":
 		return execHostile(input)
+	case "animdec":
+		anim, err := animation.DecodeBytes(input)
+		if err != nil {
+			return Result{Err: true, ErrStr: err.Error()}
+		}
+		corruptFrames(anim, op.AnimDec.Corrupt)
+		derr := anim.DecodeFramesParallel()
+		h := fmt.Sprint("err=", derr != nil)
+		for _, fr := range anim.Frames {
+			if fr.Image == nil {
+				h += ";nil"
+			} else {
+				h += ";" + DigestImage(fr.Image)
+			}
+		}
+		return Result{Digest: DigestBytes([]byte(h)), Len: len(anim.Frames), W: anim.CanvasWidth, H: anim.CanvasHeight}
 	case "dec":
 		img, err := webp.Decode(NewSimReader(input, ReadPlan{Mode: "whole", HasLen: true, ErrAt: -1}))
 		if err != nil {
@@ -191,6 +212,9 @@ func needsInput(op Op) bool { return op.Kind != "enc" && op.Kind != "animenc" }
 func InputFor(op Op) []byte {
 	if op.Kind == "hostile" {
 		return c05Bytes(op.Hostile)
+	}
+	if op.Kind == "animdec" {
+		return AnimFileFor(op.AnimDec.Spec)
 	}
 	return FileFor(op.Img, op.Opt)
 }
